@@ -1,6 +1,7 @@
 package main
 
 import (
+	"fmt"
 	"math"
 	"math/big"
 	"math/rand"
@@ -59,30 +60,48 @@ func runC14(c map[string]interface{}) []Event {
 			rings = append(rings, pts)
 		}
 	}
-	P := buildOperand(pm["polys"], str(pm["t"]), 1)
-	e := Event{"ev": "clip", "pieces": []interface{}{}, "empty": true}
+	// optional magnitude shift: every coordinate times 2^sh (exact), the result divided again before it is described
+	f := 1.0
+	if v, ok := c["sh"]; ok {
+		f = math.Ldexp(1, num(v))
+	}
+	shDec := func(v interface{}) float64 { return float64(num(v)) * f }
+	P := buildOperand(pm["polys"], str(pm["t"]), 1/f)
+	e := Event{"ev": "clip", "pieces": []interface{}{}, "empty": true, "again": false}
 	e["out"] = safely(func() {
 		var res geom.Linear
 		if ml, _ := c["ml"].(bool); ml {
 			var g geom.MultiLineString
 			for _, l := range arr(c["lines"]) {
-				g = append(g, geom.LineString(decPath(l, intDec)))
+				g = append(g, geom.LineString(decPath(l, shDec)))
 			}
 			res = g.Clip(P)
 		} else {
-			res = geom.LineString(decPath(arr(c["lines"])[0], intDec)).Clip(P)
+			res = geom.LineString(decPath(arr(c["lines"])[0], shDec)).Clip(P)
 		}
 		out, ok := res.(geom.MultiLineString)
 		if !ok {
 			e["out2"] = "not a MultiLineString"
 			return
 		}
+		// the same polygon value is used again: a second Clip of the same line gives the same pieces
+		var res2 geom.Linear
+		if ml, _ := c["ml"].(bool); ml {
+			var g geom.MultiLineString
+			for _, l := range arr(c["lines"]) {
+				g = append(g, geom.LineString(decPath(l, shDec)))
+			}
+			res2 = g.Clip(P)
+		} else {
+			res2 = geom.LineString(decPath(arr(c["lines"])[0], shDec)).Clip(P)
+		}
+		e["again"] = fmt.Sprint(res2) == fmt.Sprint(res)
 		var pieces []interface{}
 		n := 0
 		for _, pc := range out {
 			var ds []interface{}
 			for _, v := range pc {
-				ds = append(ds, describeC14(v, lines, rings))
+				ds = append(ds, describeC14(geom.Point{X: v.X / f, Y: v.Y / f}, lines, rings))
 				n++
 			}
 			if ds == nil {
